@@ -16,7 +16,7 @@ CHECKS = {
  "C01": ("fault_enumeration", "differential runtime monitor: native uni-STARK / batch-STARK verifiers vs the verification circuit (built once per honest shape, real runner) on honest proofs, on every single-leaf mutation of proof / public values / common data, and on forged proofs pushed through the real prover",
          "35-49 proof shapes x 9 configurations (BabyBear/KoalaBear D4, KoalaBear quintic, Goldilocks D2, hiding PCS over plain and salted MMCS, Merkle caps of height 2 over plain and salted MMCS, FRI arity 4 with two-height batches); exhaustive leaf sweep per shape; verdict agreement is the oracle. Poseidon1 challengers and arity-4 MMCS are covered at the MMCS/FRI level by C07/C08 only.",
          "DESIGN.md §3 C01", TRUSTED),
- "C14": ("fault_enumeration", "runtime monitor on packed inputs: lengths vs the circuit's expectations, value held after an honest run by every allocated proof target vs the proof element it must carry (independent parallel walkers), and single-position perturbation of every packed position vs the native verdict",
+ "C14": ("fault_enumeration", "runtime monitor on packed inputs: lengths vs the circuit's expectations, value held after an honest run by every allocated proof target vs the proof element it must carry (independent parallel walkers), single-position perturbation of every packed position vs the native verdict, and a foreign-verifying-key probe on the next-layer path (honest proof + a key differing in one commitment word must be rejected after backend packing)",
          "Exhaustive over targets and packed positions of every shape of C01's shape list.",
          "DESIGN.md §3 C14", TRUSTED),
  "C15": ("fault_enumeration", "runtime fault injection on proof structure: every array node / option / non-field integer of proof, common data and parameters structurally mutated and fed to the circuit builders in memory-limited child processes; an optional part added where the shape has none is part of the mutant set; panics, aborts, circuits accepting what native rejects, and a builder returning Ok for what the native verifier rejects for a structural reason are violations",
@@ -35,7 +35,7 @@ CHECKS = {
          "Generated programs on 8 setups, NPO-rich BabyBear D4 circuits, library-built challenger circuits on 12 configurations (Poseidon2/Poseidon1/recompose tables, run and proven: this is where the parallel trace generation lives), and the recursive verifier circuits (verify_*_circuit and build_next_layer_circuit) of every proof shape of the shared kit. Hash seeds and thread schedules are sampled, a non-determinism needing a specific collision can be missed; hiding-PCS shapes are left out of the parallel-feature processes (upstream p3-fri deadlock, see DESIGN.md).",
          "DESIGN.md §3 C18", TRUSTED),
  "C19": ("fault_enumeration", "runtime fault injection on the runner API executed under two build profiles, under the Miri interpreter and under valgrind memcheck: each (circuit, input fault) is run by the release binary, by a dev-profile build, (sample) under Miri and (thorough, sample) by the release binary under memcheck; outcomes compared, Ok on a faulted run or any UB report is a violation",
-         "Faults: inputs withheld / short / long / set twice / conflicting, private data missing / duplicated / wrong type / wrong size / unknown op, non-boolean direction bit; circuits whose inputs feed ALU rows, hints and Poseidon2 rows (sponge, chained, Merkle) directly.",
+         "Faults: inputs withheld / short / long / set twice / conflicting, private data missing / duplicated / wrong type / wrong size / unknown op, non-boolean direction bit, violated zero check / zero divisor (boolean checks are compared across profiles only); circuits whose inputs feed ALU rows, hints and Poseidon2 rows (sponge, chained, Merkle) directly.",
          "DESIGN.md §3 C19", TRUSTED),
  "C07": ("fault_enumeration", "differential runtime monitor at the PCS boundary: native TwoAdicFriPcs/HidingFriPcs verify vs the in-circuit FRI verifier on honest proofs, on every single-leaf mutation of the proof/claims/commitments, on structural mutations of every array node (circuit rebuilt per mutant) and on prover-side faults (deviating challenger; the prover opening one point fewer/more or omitting random-codeword rows with a consistently edited transcript)",
          "Parameter grid (blow-up, queries, arity schedules, final-poly length, PoW bits, batches of mixed heights) with an exhaustive leaf sweep per honest proof; verdict agreement is the oracle.",
@@ -43,8 +43,8 @@ CHECKS = {
  "C08": ("fault_enumeration", "differential runtime monitor: native MerkleTreeMmcs / hiding / extension MMCS verify_batch vs the in-circuit opening verifiers on honest openings at every index and on every single alteration (leaf, sibling word, index bit, cap word, salt, row swap), for single openings and for sequences of 2-4 openings verified in one circuit (state carried between openings; alteration of the first / middle / last opening)",
          "Random dimension vectors (mixed heights, widths off the hash rate, cap heights, arity 2 and 4, hiding, base/extension leaves) on 13 configurations; every index of every tree.",
          "DESIGN.md §3 C08", TRUSTED),
- "C10": ("exploration", "runtime pipeline monitor: generated programs with satisfying inputs are taken through the real build -> key generation -> run -> prove -> verify under random prover configurations; failures are classified with the bus monitor",
-         "Programs from the generator (3/4 in the dialect that avoids known-broken constructs) x random packings, 8 field setups, plus the directed shapes named by the property.",
+ "C10": ("exploration", "runtime pipeline monitor: generated programs with satisfying inputs are taken through the real build -> key generation -> run -> prove -> verify under random prover configurations; failures are classified with the bus monitor; second stream: row programs over the Poseidon2/Poseidon1 permutation tables (c04npo) built, run, proven and verified",
+         "Programs from the generator (3/4 in the dialect that avoids known-broken constructs) x random packings, 8 field setups, plus the directed shapes named by the property (incl. Horner chains whose evaluation point changes and returns) and 480 / 9000 permutation-row programs.",
          "DESIGN.md §3 C10", TRUSTED),
  "C12": ("fault_enumeration", "runtime fault injection with deviating hint executors: the decomposition hints of circuits using decompose_to_bits / decompose_ext_to_base_coeffs are replaced by alternatives satisfying the recomposition identity (bits of x+kp, one non-boolean bit compensating a flipped one, extension-valued bits whose higher limbs cancel, moved coefficient mass), optionally together with a trace-level forgery of the bool-check rows of the prover's own ALU trace; traces are proven with the honest prover data and verified",
          "Value classes (0, 1, small, around the 2^n-p slack, p-1, random) x widths x k in 1..3 for bits; three mass-moving families for coefficients, ALU and recompose-table paths; 8 field setups. Challenger gadgets are covered by C06.",
@@ -55,7 +55,7 @@ CHECKS = {
  "C20": ("exploration", "differential runtime monitor: each verifier gadget is instantiated in a small circuit, run, and its outputs compared with native p3-commit/p3-fri/p3-field computations over a parameter grid",
          "16 gadgets x 4 configurations; deterministic grid over sizes/shifts/chunks/periods/lengths/exponents/indices plus random tuples, including degenerate sizes and in-domain points.",
          "DESIGN.md §3 C20", TRUSTED),
- "C09": ("exploration", "runtime bus monitor: every WitnessChecks tuple of every row of the real Const/Public/ALU tables is replayed from the real AIRs and matrices of honest runs of generated programs and aggregated per witness slot; cross-checked against upstream's lookup debugger",
+ "C09": ("exploration", "runtime bus monitor: every WitnessChecks tuple of every row of the real Const/Public/ALU tables is replayed from the real AIRs and matrices of honest runs of generated programs and aggregated per witness slot; cross-checked against upstream's lookup debugger; second stream: honest executions of row programs over the Poseidon permutation tables (Merkle chains, index-accumulator exposure, tables of exactly 2^k rows) are proven and verified, a verifier lookup error on an honest run is an unbalanced bus",
          "Per-slot invariants (one creator, creator multiplicity == reads, equal values, no floating operand) observed on honest executions of generated programs under random packings. Slots touched only by plugin tables are judged by the upstream debugger cross-check.",
          "DESIGN.md §3 C09", TRUSTED),
  "C11": ("fault_enumeration", "runtime monitor over explicit trace rows: the real AIR constraints (incl. bus tuples) are evaluated on valid rows and on every single-cell perturbation and compared with an independent evaluation of the operation's relation in native field arithmetic",
@@ -65,7 +65,7 @@ CHECKS = {
          "Exhaustive single-field (sampled pairs) alteration of BatchStarkProof metadata on 6 configurations; a relying party pinning the preprocessed commitment never accepts an invalid-trace proof; codecs preserve the verdict. A verifier panic counts as (unclean) rejection and is reported as an observation.",
          "DESIGN.md §3 C16", TRUSTED),
  "C17": ("exploration", "runtime monitor over call histories of the real recursion API (next-layer / aggregation steps, adversarial cache offers): each output verified natively and fed to a further layer, cached vs uncached verdicts compared, and a state invariant of the aggregation cache slot (untouched, or fingerprint of the circuit just proven) asserted after every call that was handed a slot",
-         "Random histories of depth 1-4 with parameter changes and cache slots filled by other circuits; histories are short because each step costs seconds.",
+         "Random histories of depth 1-4 with parameter changes (lanes, Horner packing, constraint profile, recompose lane count) and cache slots filled by other circuits; one history in five runs with the recompose table switched off; histories are short because each step costs seconds.",
          "DESIGN.md §3 C17", TRUSTED),
  "C03": ("exploration", "runtime monitor with adversarial witness completion: the emitted op list is evaluated on its own by an independent relation checker and compared with the source program's relations; counter-examples are confirmed by proving a forged trace",
          "For generated programs, assignments accepted by the op-list relations alone (prover-chosen values for every slot no relation forces) must satisfy every source relation. Sampled programs and assignments, not all adversaries.",
